@@ -60,3 +60,14 @@ package cla
 //@ ensures ce.ttl >= 0
 //@ ensures old(ce.ttl) < 0 ==> ce.ttl == ttl && closed(old(ce.stopSyn)) && closes(old(ce.stopSyn)) == old(closes(ce.stopSyn)) + 1
 //@ ensures old(ce.ttl) >= 0 ==> ce.ttl == old(ce.ttl) && closes(ce.stopSyn) == old(closes(ce.stopSyn))
+
+// The peer endpoint of a sender is a pure function of the adapter (assumed).
+// govc:iface ConvergenceSender.GetPeerEndpointID
+//@ assigns nothing
+//@ ensures result == self.GetPeerEndpointID()
+
+// Manager.Sender / Receiver iterate a sync.Map with a callback (outside reach); their callbacks are verified
+// separately. Assumed here: they change nothing and return non-nil adapters.
+// govc:trusted (*Manager).Sender
+//@ assigns nothing
+//@ ensures forall k int :: 0 <= k && k < len(css) ==> css[k] != nil
